@@ -48,6 +48,7 @@ Inductive action :=
 | AClearOwn                     (* queue.clear() on it *)
 | AClearNth (k : nat)           (* release the (k mod n)-th outstanding wait / coroutine future *)
 | AClearQ (q : nat)             (* release the held wait on queue object q (if held) *)
+| ACancelNth (k : nat)          (* cancel the future the (k mod n)-th outstanding item awaits (coroutines only) *)
 | APostQ (ev : Z) (share : bool) (kw : list (Z * Z))   (* post_queue(ev, callback[, queue=own queue], **kw) *)
 | APostP (ev : Z)               (* post(ev) *)
 | ARemove (h : Z).              (* remove_handler_by_key *)
@@ -247,6 +248,20 @@ Definition clear_nth (k : nat) (s : state) : state :=
       end
   end.
 
+(* The future a coroutine handler awaits is cancelled (or the coroutine raises CancelledError): the task ends
+   CANCELLED, _async_handler_done swallows the CancelledError and still calls queue.clear() - the same ready-queue
+   pattern as a normal completion.  A held wait of a sync handler cannot be cancelled: no-op. *)
+Definition cancel_nth (k : nat) (s : state) : state :=
+  match outst s with
+  | [] => s
+  | _ =>
+      let i := Nat.modulo k (length (outst s)) in
+      match nth_error (outst s) i with
+      | Some (OFut q) => push_ready (upd_outst s (remove_nth i (outst s))) (RCoroWake q)
+      | _ => s
+      end
+  end.
+
 Definition exec_action (own : option nat) (a : action) (s : state) : state :=
   match a with
   | AWait => match own with Some q => do_wait q true s | None => s end
@@ -256,6 +271,7 @@ Definition exec_action (own : option nat) (a : action) (s : state) : state :=
                  end
   | AClearNth k => clear_nth k s
   | AClearQ q => if held q s then do_clear q (upd_outst s (remove_first (OWait q) (outst s))) else s
+  | ACancelNth k => cancel_nth k s
   | APostQ ev share kw => post ev true (if share then own else None) (kw_norm kw) s
   | APostP ev => post ev false None [] s
   | ARemove h => upd_reg s (reg_remove h (reg s))
